@@ -1,10 +1,1153 @@
 /-
-  Model module `Eval` (driver op `core`). Import-free apart from RsjModel.* modules.
+  Model of the core-language evaluator (`eval/mod.rs`, `eval/expr.rs`,
+  `eval/call.rs`, object code of `data.rs`): a store-passing, call-by-need
+  big-step interpreter with explicit thunk states, environments, object layers,
+  per-step trace-depth accounting (C10) and `std.trace` log (C04).
+  Open recursion + fuel: `run (n+1) = step (run n)`.
 -/
-import RsjModel.Util
+import RsjModel.Core
 namespace Rsj.Eval
+open Rsj.Core
 
-/-- `core <args...>` : one canonical answer line, or `none` for a malformed request. -/
-def handle (_args : List String) : Option String := none
+abbrev TId := Nat
+abbrev EId := Nat
+abbrev OId := Nat
+abbrev FId := Nat
+
+inductive Value where
+  | null
+  | bool (b : Bool)
+  | num (f : Float)
+  | str (s : String)
+  | arr (items : List TId)
+  | obj (o : OId)
+  | func (f : FId)
+deriving Inhabited
+
+inductive Pending where
+  | expr (e : Expr) (env : EId)
+  | plus (e : Expr) (field : String) (env : EId)
+  /-- `new_pending_call`: a function applied to already-built argument thunks -/
+  | call (f : FId) (args : List TId)
+
+inductive TState where
+  | pending (p : Pending)
+  | inProgress (p : Pending)
+  | done (v : Value)
+
+structure ObjRef where
+  obj : OId
+  layer : Nat
+  top : OId
+
+structure Env where
+  parent : Option EId
+  vars : List (String × TId)
+  obj : Option ObjRef
+
+structure Field where
+  name : String
+  vis : Vis
+  baseEnv : Option EId
+  /-- `(value expression, plus)`; `none` when the thunk was precomputed -/
+  expr : Option (Expr × Bool)
+  thunk : Option TId
+
+structure Layer where
+  isTop : Bool
+  locals : List (String × Expr)
+  baseEnv : Option EId
+  env : Option EId
+  fields : List Field
+  asserts : List (Expr × OptExpr)
+
+structure Obj where
+  layers : List Layer
+  assertsChecked : Bool
+
+structure Func where
+  params : List (String × OptExpr)
+  body : Expr
+  env : EId
+
+inductive Err where
+  | stackOverflow
+  | infiniteRecursion
+  /-- models a Rust panic site (`unwrap`, `expect`, `unreachable!`) -/
+  | internal (msg : String)
+  /-- the model does not cover this behaviour (the check skips the case) -/
+  | unsupported (msg : String)
+  /-- `EvalErrorKind` variant name + the detail string the harness prints -/
+  | rt (kind : String) (detail : String)
+
+structure St where
+  thunks : Array TState := #[]
+  envs : Array Env := #[]
+  objs : Array Obj := #[]
+  funcs : Array Func := #[]
+  /-- `std.trace` messages, newest first -/
+  traces : List String := []
+  /-- how many times each thunk's computation was started -/
+  runs : Array Nat := #[]
+
+/-- Evaluation monad: `none` (the bottom of the flat order on `Option`) means
+    "not enough fuel"; errors and results carry the store. -/
+abbrev M := ExceptT Err (StateT St Option)
+
+/-- out of fuel -/
+def bottom {α} : M α := ExceptT.mk (fun _ => none)
+
+structure Cfg where
+  maxStack : Nat
+
+inductive Task where
+  | eval (e : Expr) (env : EId) (tail : Bool) (d : Nat)
+  | force (t : TId) (d : Nat)
+  /-- result `Value.str`: JSON text (`canon = false`, the `toString` format) or the
+      canonical tree notation used to compare final results -/
+  | manifest (v : Value) (d : Nat) (canon : Bool)
+  | equals (a b : Value) (d : Nat)
+  | compare (a b : Value) (d : Nat)
+  | deep (v : Value) (d : Nat)
+  | asserts (o : OId) (d : Nat)
+
+/-! ### Store helpers -/
+
+def allocThunk (s : TState) : M TId := do
+  let st ← get
+  set { st with thunks := st.thunks.push s, runs := st.runs.push 0 }
+  pure st.thunks.size
+
+def allocEnv (e : Env) : M EId := do
+  let st ← get
+  set { st with envs := st.envs.push e }
+  pure st.envs.size
+
+def allocObj (o : Obj) : M OId := do
+  let st ← get
+  set { st with objs := st.objs.push o }
+  pure st.objs.size
+
+def allocFunc (f : Func) : M FId := do
+  let st ← get
+  set { st with funcs := st.funcs.push f }
+  pure st.funcs.size
+
+def getThunk (t : TId) : M TState := do
+  match (← get).thunks[t]? with
+  | some s => pure s
+  | none => throw (.internal "bad thunk id")
+
+def setThunk (t : TId) (s : TState) : M Unit :=
+  modify fun st => { st with thunks := st.thunks.setIfInBounds t s }
+
+def getEnv (e : EId) : M Env := do
+  match (← get).envs[e]? with
+  | some s => pure s
+  | none => throw (.internal "env data not set")
+
+def setEnv (e : EId) (v : Env) : M Unit :=
+  modify fun st => { st with envs := st.envs.setIfInBounds e v }
+
+def getObj (o : OId) : M Obj := do
+  match (← get).objs[o]? with
+  | some s => pure s
+  | none => throw (.internal "attempted to access destroyed object")
+
+def setObj (o : OId) (v : Obj) : M Unit :=
+  modify fun st => { st with objs := st.objs.setIfInBounds o v }
+
+def getFunc (f : FId) : M Func := do
+  match (← get).funcs[f]? with
+  | some s => pure s
+  | none => throw (.internal "bad function id")
+
+/-- `ThunkEnvData::new(parent)`: the object reference is inherited. -/
+def newEnv (parent : Option EId) (vars : List (String × TId)) : M EId := do
+  let o ← match parent with
+    | some p => do pure (← getEnv p).obj
+    | none => pure none
+  allocEnv { parent := parent, vars := vars, obj := o }
+
+/-- `ThunkEnv::get_var`: this environment, then the parent chain (fuel = number of envs). -/
+def lookupVar : Nat → Array Env → EId → String → Option TId
+  | 0, _, _, _ => none
+  | fuel + 1, envs, e, n =>
+    match envs[e]? with
+    | none => none
+    | some env =>
+      match env.vars.find? (fun p => p.1 == n) with
+      | some p => some p.2
+      | none =>
+        match env.parent with
+        | some p => lookupVar fuel envs p n
+        | none => none
+
+def getVar (e : EId) (n : String) : M TId := do
+  let st ← get
+  match lookupVar (st.envs.size + 1) st.envs e n with
+  | some t => pure t
+  | none => throw (.internal "variable not found")
+
+def getObjRef (e : EId) : M ObjRef := do
+  match (← getEnv e).obj with
+  | some r => pure r
+  | none => throw (.internal "get_object on an environment without object")
+
+def typeName : Value → String
+  | .null => "Null" | .bool _ => "Bool" | .num _ => "Number" | .str _ => "String"
+  | .arr _ => "Array" | .obj _ => "Object" | .func _ => "Function"
+
+def typeStr : Value → String
+  | .null => "null" | .bool _ => "boolean" | .num _ => "number" | .str _ => "string"
+  | .arr _ => "array" | .obj _ => "object" | .func _ => "function"
+
+/-- `Paren` does not exist in the IR. -/
+def stripParen : Expr → Expr
+  | .paren e => stripParen e
+  | e => e
+
+def paramsList : Params → List (String × OptExpr)
+  | .nil => []
+  | .cons n d rest => (n, d) :: paramsList rest
+
+def exprsList : Exprs → List Expr
+  | .nil => []
+  | .cons e rest => e :: exprsList rest
+
+/-- `local f(ps) = e` / `f(ps): e`  ⇒  `function(ps) e` -/
+def bindExpr (ps : OptParams) (e : Expr) : Expr :=
+  match ps with
+  | .none => e
+  | .some ps => .func ps e
+
+def bindsList : Binds → List (String × Expr)
+  | .nil => []
+  | .cons n ps e rest => (n, bindExpr ps e) :: bindsList rest
+
+def isFinite (f : Float) : Bool := f.isFinite
+
+/-- `check_number_value` -/
+def checkNum (f : Float) : M Unit :=
+  if f.isNaN then throw (.rt "NumberNan" "")
+  else if f.isInf then throw (.rt "NumberOverflow" "")
+  else pure ()
+
+/-- `try_value_from_expr` (on the parenthesis-free expression) -/
+def literalValue : Expr → Option Value
+  | .null => some .null
+  | .true_ => some (.bool true)
+  | .false_ => some (.bool false)
+  | .num f => if f.isFinite then some (.num f) else none
+  | .str s => some (.str s)
+  | .array .nil => some (.arr [])
+  | _ => none
+
+/-- `new_pending_expr_thunk` -/
+def newThunk (e : Expr) (env : EId) : M TId := do
+  match stripParen e with
+  | .func ps body =>
+    let f ← allocFunc { params := paramsList ps, body := body, env := env }
+    allocThunk (.done (.func f))
+  | e' =>
+    match literalValue e' with
+    | some v => allocThunk (.done v)
+    | none => allocThunk (.pending (.expr e env))
+
+/-- depth check performed after every evaluator step -/
+def checkDepth (cfg : Cfg) (d : Nat) : M Unit :=
+  if d > cfg.maxStack then throw .stackOverflow else pure ()
+
+/-! ### Objects -/
+
+def cmpStr (a b : String) : Bool := a < b
+
+def insertSorted (n : String) (v : Vis) : List (String × Vis) → List (String × Vis)
+  | [] => [(n, v)]
+  | (m, w) :: rest =>
+    if n < m then (n, v) :: (m, w) :: rest
+    else (m, w) :: insertSorted n v rest
+
+/-- `get_fields_order` restricted to objects without removal markers (the core
+    language cannot create them): first non-default visibility from the top wins. -/
+def fieldsOrder (o : Obj) : List (String × Vis) :=
+  o.layers.foldl (fun acc layer =>
+    layer.fields.foldl (fun acc f =>
+      match acc.find? (fun p => p.1 == f.name) with
+      | none => insertSorted f.name f.vis acc
+      | some (_, .default) => acc.map (fun p => if p.1 == f.name then (p.1, f.vis) else p)
+      | some _ => acc) acc) []
+
+def visibleFields (o : Obj) : List String :=
+  (fieldsOrder o).filterMap (fun p => if p.2 == .hidden then none else some p.1)
+
+/-- `find_field`: first layer at index ≥ `start` that defines `name`. -/
+def findField (o : Obj) (start : Nat) (name : String) : Option (Nat × Field) :=
+  let rec go (ls : List Layer) (i : Nat) : Option (Nat × Field) :=
+    match ls with
+    | [] => none
+    | l :: rest =>
+      match l.fields.find? (fun f => f.name == name) with
+      | some f => some (i, f)
+      | none => go rest (i + 1)
+  go (o.layers.drop start) start
+
+def hasVisibleField (o : Obj) (name : String) : Bool :=
+  (visibleFields o).contains name
+
+def cloneField (f : Field) : Field :=
+  { f with thunk := match f.expr with | some _ => none | none => f.thunk }
+
+def cloneLayer (l : Layer) : Layer :=
+  { l with env := none, fields := l.fields.map cloneField }
+
+/-- `extend_object` -/
+def extendObject (lhs rhs : Obj) : Obj :=
+  { layers := (rhs.layers ++ lhs.layers).map cloneLayer, assertsChecked := false }
+
+/-- `init_object_env` -/
+def initObjectEnv (o : OId) (layerI : Nat) (baseEnv : EId) : M EId := do
+  let ob ← getObj o
+  let some layer := ob.layers[layerI]? | throw (.internal "bad layer index")
+  let base ← getEnv baseEnv
+  let env ← allocEnv { parent := some baseEnv, vars := [], obj := base.obj }
+  let mut vars : List (String × TId) := []
+  for (n, e) in layer.locals do
+    let t ← newThunk e env
+    vars := vars ++ [(n, t)]
+  let top ← if layer.isTop then pure o else
+    match base.obj with
+    | some r => pure r.top
+    | none => throw (.internal "get_top_object on an environment without object")
+  setEnv env { parent := some baseEnv, vars := vars, obj := some { obj := o, layer := layerI, top := top } }
+  pure env
+
+/-- `get_object_layer_env` -/
+def layerEnv (o : OId) (layerI : Nat) : M EId := do
+  let ob ← getObj o
+  let some layer := ob.layers[layerI]? | throw (.internal "bad layer index")
+  match layer.env with
+  | some e => pure e
+  | none =>
+    let some base := layer.baseEnv | throw (.internal "layer without base env")
+    let e ← initObjectEnv o layerI base
+    let ob ← getObj o
+    setObj o { ob with layers := ob.layers.set layerI { layer with env := some e } }
+    pure e
+
+/-- `find_object_field_thunk` -/
+def fieldThunk (o : OId) (start : Nat) (name : String) : M (Option TId) := do
+  let ob ← getObj o
+  match findField ob start name with
+  | none => pure none
+  | some (li, f) =>
+    match f.thunk with
+    | some t => pure (some t)
+    | none =>
+      let some (e, plus) := f.expr | throw (.internal "field without expression")
+      let env ← match f.baseEnv with
+        | some b => initObjectEnv o li b
+        | none => layerEnv o li
+      let t ← if plus then allocThunk (.pending (.plus e name env)) else allocThunk (.pending (.expr e env))
+      let ob ← getObj o
+      let some layer := ob.layers[li]? | throw (.internal "bad layer index")
+      let fields := layer.fields.map (fun g => if g.name == name then { g with thunk := some t } else g)
+      setObj o { ob with layers := ob.layers.set li { layer with fields := fields } }
+      pure (some t)
+
+/-- `add_object_field` on the object under construction -/
+def addField (layer : Layer) (name : String) (plus : Bool) (vis : Vis) (value : Expr)
+    (baseEnv : Option EId) : M Layer := do
+  if layer.fields.any (fun f => f.name == name) then
+    throw (.rt "RepeatedFieldName" name)
+  if plus then
+    pure { layer with fields := layer.fields ++ [{ name, vis, baseEnv, expr := some (value, true), thunk := none }] }
+  else
+    match literalValue (stripParen value) with
+    | some v =>
+      let t ← allocThunk (.done v)
+      pure { layer with fields := layer.fields ++ [{ name, vis, baseEnv, expr := none, thunk := some t }] }
+    | none =>
+      pure { layer with fields := layer.fields ++ [{ name, vis, baseEnv, expr := some (value, false), thunk := none }] }
+
+/-! ### Numbers -/
+
+def maxSafe : Float := 9007199254740991.0
+
+/-- `safe_f64_to_i64` -/
+def safeInt (f : Float) : M Int :=
+  if f < -maxSafe || f > maxSafe then throw (.rt "NumberNotBitwiseSafe" "")
+  else pure (f.toInt64.toInt)
+
+def intToFloat (i : Int) : Float :=
+  if i ≥ 0 then Float.ofNat i.toNat else -(Float.ofNat (-i).toNat)
+
+/-- wrap to i64 (two's complement) -/
+def wrap64 (i : Int) : Int :=
+  let m := i % (2 ^ 64)
+  if m ≥ 2 ^ 63 then m - 2 ^ 64 else m
+
+/-- decimal text of an integer-valued double, as Rust's `Display` prints it -/
+def numText (f : Float) : M String :=
+  if f == f.floor && f.abs < 1.0e15 then
+    let i := f.toInt64.toInt
+    if i == 0 && (1.0 / f) < 0.0 then pure "-0" else pure (toString i)
+  else throw (.unsupported "number formatting of a non-integer")
+
+def bitsHex (f : Float) : String :=
+  let b := f.toBits.toNat
+  String.ofList ((List.range 16).reverse.map (fun i => hexDigit (b / 16 ^ i % 16)))
+
+/-- `try_to_usize_exact` -/
+def toIndex (f : Float) : Option Nat :=
+  if f ≥ 0.0 && f == f.floor && f < 18446744073709551616.0 then some f.toUInt64.toNat else none
+
+/-! ### Strings -/
+
+def jsonEscape (s : String) : String :=
+  let body := s.toList.foldl (fun acc c =>
+    let n := c.toNat
+    if c == '"' then acc ++ "\\\"".toList
+    else if c == '\\' then acc ++ "\\\\".toList
+    else if n == 8 then acc ++ "\\b".toList
+    else if n == 9 then acc ++ "\\t".toList
+    else if n == 10 then acc ++ "\\n".toList
+    else if n == 12 then acc ++ "\\f".toList
+    else if n == 13 then acc ++ "\\r".toList
+    else if n < 0x20 || (0x7f ≤ n && n ≤ 0x9f) then
+      acc ++ ['\\', 'u', hexDigit (n / 4096 % 16), hexDigit (n / 256 % 16), hexDigit (n / 16 % 16), hexDigit (n % 16)]
+    else acc ++ [c]) []
+  "\"" ++ String.ofList body ++ "\""
+
+/-! ### Argument binding (`check_call_args_generic`) -/
+
+/-- Positional / named arguments after their thunks were created. -/
+structure BoundArgs where
+  pos : List TId
+  named : List (String × TId)
+
+/-- Returns the argument thunks in parameter order; `mkDefault` creates the
+    thunk of a default-value expression in the arguments environment. -/
+def bindArgs (params : List (String × OptExpr)) (args : BoundArgs) (funcEnv : Option EId)
+    (newDefault : Expr → EId → M TId) : M (List TId) := do
+  let np := params.length
+  if args.pos.length > np then
+    throw (.rt "TooManyCallArgs" (toString np))
+  if args.pos.length == np && args.named.isEmpty then
+    return args.pos
+  let npos := args.pos.length
+  -- named arguments into a temporary vector
+  let mut tmp : List (Option TId) := List.replicate (np - npos) none
+  for (n, t) in args.named do
+    match params.findIdx? (fun p => p.1 == n) with
+    | none => throw (.rt "UnknownCallParam" n)
+    | some pi =>
+      if pi < npos then throw (.rt "RepeatedCallParam" n)
+      match tmp[pi - npos]? with
+      | some (some _) => throw (.rt "RepeatedCallParam" n)
+      | _ => tmp := tmp.set (pi - npos) (some t)
+  if tmp.all Option.isSome then
+    return args.pos ++ tmp.filterMap id
+  -- an environment is required to evaluate default arguments
+  let argsEnv ← allocEnv { parent := none, vars := [], obj := none }
+  let mut out : List TId := args.pos
+  for (slot, (pn, pd)) in tmp.zip (params.drop npos) do
+    match slot with
+    | some t => out := out ++ [t]
+    | none =>
+      match pd with
+      | .none => throw (.rt "CallParamNotBound" pn)
+      | .some e => out := out ++ [← newDefault e argsEnv]
+  let o ← match funcEnv with
+    | some p => do pure (← getEnv p).obj
+    | none => pure none
+  setEnv argsEnv { parent := funcEnv, vars := (params.map Prod.fst).zip out, obj := o }
+  pure out
+
+/-! ### The evaluator -/
+
+def argsSplit : Args → List (Option String × Expr)
+  | .nil => []
+  | .pos e rest => (none, e) :: argsSplit rest
+  | .named n e rest => (some n, e) :: argsSplit rest
+
+def membersList : Members → List Members
+  | .nil => []
+  | m@(.local_ _ _ _ rest) => m :: membersList rest
+  | m@(.assert_ _ _ rest) => m :: membersList rest
+  | m@(.fieldFix _ _ _ _ _ rest) => m :: membersList rest
+  | m@(.fieldDyn _ _ _ _ _ rest) => m :: membersList rest
+
+def memberLocals : Members → List (String × Expr)
+  | .nil => []
+  | .local_ n ps e rest => (n, bindExpr ps e) :: memberLocals rest
+  | .assert_ _ _ rest => memberLocals rest
+  | .fieldFix _ _ _ _ _ rest => memberLocals rest
+  | .fieldDyn _ _ _ _ _ rest => memberLocals rest
+
+def memberAsserts : Members → List (Expr × OptExpr)
+  | .nil => []
+  | .local_ _ _ _ rest => memberAsserts rest
+  | .assert_ c m rest => (c, m) :: memberAsserts rest
+  | .fieldFix _ _ _ _ _ rest => memberAsserts rest
+  | .fieldDyn _ _ _ _ _ rest => memberAsserts rest
+
+def specsList : Specs → List (Option String × Expr)
+  | .nil => []
+  | .for_ v e rest => (some v, e) :: specsList rest
+  | .if_ c rest => (none, c) :: specsList rest
+
+def boolOf (b : Bool) : Value := .bool b
+
+section
+variable (cfg : Cfg) (rec : Task → M Value)
+
+def recStr (t : Task) : M String := do
+  match ← rec t with
+  | .str s => pure s
+  | _ => throw (.internal "task did not return a string")
+
+/-- `want_thunk_direct` -/
+def wantThunk (t : TId) (d : Nat) : M Value := do
+  match ← getThunk t with
+  | .done v => pure v
+  | _ =>
+    checkDepth cfg (d + 1)
+    rec (.force t (d + 1))
+
+/-- `want_field` -/
+def wantField (o : OId) (name : String) (d : Nat) : M Value := do
+  match ← fieldThunk o 0 name with
+  | none => throw (.rt "UnknownObjectField" name)
+  | some t =>
+    if (← getObj o).assertsChecked then
+      wantThunk cfg rec t d
+    else
+      checkDepth cfg (d + 1)
+      let _ ← rec (.asserts o (d + 1))
+      rec (.force t (d + 1))
+
+/-- `want_super_field` -/
+def wantSuperField (env : EId) (name : String) (d : Nat) : M Value := do
+  let r ← getObjRef env
+  let ob ← getObj r.obj
+  if r.layer + 1 == ob.layers.length then
+    throw (.rt "SuperWithoutSuperObject" "")
+  match ← fieldThunk r.obj (r.layer + 1) name with
+  | some t => wantThunk cfg rec t d
+  | none => throw (.rt "UnknownObjectField" name)
+
+/-- `CoerceToString` -/
+def coerceToString (v : Value) (d : Nat) : M String := do
+  match v with
+  | .str s => pure s
+  | v => recStr rec (.manifest v d false)
+
+/-- comprehension clauses: list of variable-binding sets -/
+def evalSpecs (specs : List (Option String × Expr)) (env : EId) (d : Nat) :
+    M (List (List (String × TId))) := do
+  match specs with
+  | [] => throw (.internal "empty comprehension")
+  | (none, _) :: _ => throw (.internal "comprehension starting with if")
+  | (some v0, e0) :: rest =>
+    let first ← rec (.eval e0 env false d)
+    let .arr items := first | throw (.rt "ForSpecValueIsNotArray" (typeName first))
+    let mut sets : List (List (String × TId)) := items.map (fun t => [(v0, t)])
+    for (var, e) in rest do
+      -- evaluate the clause for every binding set first, then inspect the values
+      let mut vals : List Value := []
+      for vars in sets do
+        let inner ← newEnv (some env) vars
+        vals := vals ++ [← rec (.eval e inner false d)]
+      let mut next : List (List (String × TId)) := []
+      match var with
+      | some v =>
+        for (vars, value) in sets.zip vals do
+          let .arr items := value | throw (.rt "ForSpecValueIsNotArray" (typeName value))
+          for t in items do
+            next := next ++ [(vars.filter (fun p => p.1 != v)) ++ [(v, t)]]
+      | none =>
+        for (vars, value) in sets.zip vals do
+          let .bool b := value | throw (.rt "CondIsNotBool" (typeName value))
+          if b then next := next ++ [vars]
+      sets := next
+    pure sets
+
+def sliceRange (len : Nat) (a b c : Option Float) : M (Nat × Nat × Nat) := do
+  let start ← match a with
+    | none => pure 0
+    | some f =>
+      if !f.isFinite || f.floor != f then throw (.rt "Other" "slice start")
+      if f < 0.0 then pure (len - (-f).toUInt64.toNat) else pure f.toUInt64.toNat
+  let stop ← match b with
+    | none => pure (2 ^ 64 - 1)
+    | some f =>
+      if !f.isFinite || f.floor != f then throw (.rt "Other" "slice end")
+      let e := if f < 0.0 then len - (-f).toUInt64.toNat else f.toUInt64.toNat
+      pure (max e start)
+  let step ← match c with
+    | none => pure 1
+    | some f =>
+      if !f.isFinite || f.floor != f || f < 1.0 then throw (.rt "Other" "slice step")
+      pure f.toUInt64.toNat
+  pure (start, stop, step)
+
+def stepBy {α} (l : List α) (k : Nat) : List α :=
+  (l.zipIdx.filter (fun p => p.2 % k == 0)).map Prod.fst
+
+/-- `do_binary_op` for the operators that reach it -/
+def binaryOp (op : BinOp) (lhs rhs : Value) (d : Nat) (hasSpan : Bool) : M Value := do
+  let bad : M Value := throw (.rt "InvalidBinaryOpTypes"
+    (s!"{reprStr op}/{typeName lhs}/{typeName rhs}"))
+  match op, lhs, rhs with
+  | .land, .bool _, .bool r => pure (.bool r)
+  | .lor, .bool _, .bool r => pure (.bool r)
+  | .add, .num a, .num b => let r := a + b; checkNum r; pure (.num r)
+  | .sub, .num a, .num b => let r := a - b; checkNum r; pure (.num r)
+  | .mul, .num a, .num b => let r := a * b; checkNum r; pure (.num r)
+  | .div, .num a, .num b =>
+    if b == 0.0 then throw (.rt "DivByZero" "")
+    let r := a / b; checkNum r; pure (.num r)
+  | .rem, .num a, .num b =>
+    if b == 0.0 then throw (.rt "DivByZero" "")
+    -- Rust `%` on f64 is fmod (truncated): exact
+    let q := (a / b)
+    let r := a - b * (if q < 0.0 then q.ceil else q.floor)
+    -- fmod is exact; the formula above is only exact for moderate magnitudes
+    if a.abs > 1.0e15 || b.abs > 1.0e15 || (b.abs < 1.0 && b.abs != 0.5 && b.abs != 0.25) then
+      throw (.unsupported "fmod outside the exactly modelled range")
+    -- fmod keeps the sign of the dividend, also for a zero result
+    let r := if r == 0.0 then (if a < 0.0 || (a == 0.0 && 1.0 / a < 0.0) then -0.0 else 0.0) else r
+    checkNum r; pure (.num r)
+  | .shl, .num a, .num b =>
+    let l ← safeInt a
+    if b < 0.0 || (b == 0.0 && 1.0 / b < 0.0) then throw (.rt "ShiftByNegative" "")
+    let r ← safeInt b
+    let sh := (r % 64).toNat
+    let res := wrap64 (l * 2 ^ sh)
+    if res / 2 ^ sh != l then throw (.rt "NumberNotBitwiseSafe" "")
+    pure (.num (intToFloat res))
+  | .shr, .num a, .num b =>
+    let l ← safeInt a
+    if b < 0.0 || (b == 0.0 && 1.0 / b < 0.0) then throw (.rt "ShiftByNegative" "")
+    let r ← safeInt b
+    pure (.num (intToFloat (l / 2 ^ (r % 64).toNat)))
+  | .band, .num a, .num b => do
+    let l ← safeInt a; let r ← safeInt b
+    pure (.num (intToFloat (wrap64 (Int.ofNat ((l % 2 ^ 64).toNat &&& (r % 2 ^ 64).toNat)))))
+  | .bor, .num a, .num b => do
+    let l ← safeInt a; let r ← safeInt b
+    pure (.num (intToFloat (wrap64 (Int.ofNat ((l % 2 ^ 64).toNat ||| (r % 2 ^ 64).toNat)))))
+  | .bxor, .num a, .num b => do
+    let l ← safeInt a; let r ← safeInt b
+    pure (.num (intToFloat (wrap64 (Int.ofNat ((l % 2 ^ 64).toNat ^^^ (r % 2 ^ 64).toNat)))))
+  | .add, .str a, .str b => pure (.str (a ++ b))
+  | .add, .arr a, .arr b => pure (.arr (a ++ b))
+  | .add, .obj a, .obj b => do
+    let o ← allocObj (extendObject (← getObj a) (← getObj b))
+    pure (.obj o)
+  | .add, .str a, r => do
+    if hasSpan then checkDepth cfg (d + 1)
+    let s ← coerceToString rec r (if hasSpan then d + 1 else d)
+    pure (.str (a ++ s))
+  | .add, l, .str b => do
+    if hasSpan then checkDepth cfg (d + 1)
+    let s ← coerceToString rec l (if hasSpan then d + 1 else d)
+    pure (.str (s ++ b))
+  | .rem, .str _, _ => throw (.unsupported "string formatting")
+  | .in_, .str f, .obj o => do
+    pure (.bool ((findField (← getObj o) 0 f).isSome))
+  | _, _, _ => bad
+
+/-- `CompareArray`: element-wise, stops at the first non-equal pair. -/
+def compareLists (d : Nat) : List TId → List TId → M Value
+  | [], [] => pure (.num 0.0)
+  | [], _ :: _ => pure (.num (-1.0))
+  | _ :: _, [] => pure (.num 1.0)
+  | x :: xs', y :: ys' => do
+    checkDepth cfg (d + 1)
+    let xv ← rec (.force x (d + 1))
+    let yv ← rec (.force y (d + 1))
+    match ← rec (.compare xv yv (d + 1)) with
+    | .num c => if c == 0.0 then compareLists d xs' ys' else pure (.num c)
+    | _ => throw (.internal "compare did not return a number")
+
+/-- One level of the evaluator; `rec` is the evaluator with less fuel. -/
+def step : Task → M Value
+  | .force t d => do
+    match ← getThunk t with
+    | .done v => pure v
+    | .inProgress _ => throw .infiniteRecursion
+    | .pending p =>
+      setThunk t (.inProgress p)
+      modify fun st => { st with runs := st.runs.modify t (· + 1) }
+      let v ← match p with
+        | .expr e env => rec (.eval e env false d)
+        | .plus e field env => do
+          let r ← getObjRef env
+          match ← fieldThunk r.obj (r.layer + 1) field with
+          | some st =>
+            let sv ← wantThunk cfg rec st d
+            let v ← rec (.eval e env false d)
+            binaryOp cfg rec .add sv v d false
+          | none => rec (.eval e env false d)
+        | .call f args => do
+          let fn ← getFunc f
+          let inner ← newEnv (some fn.env) ((fn.params.map Prod.fst).zip args)
+          rec (.eval fn.body inner true d)
+      setThunk t (.done v)
+      pure v
+  | .asserts o d => do
+    let ob ← getObj o
+    if ob.assertsChecked then return .null
+    setObj o { ob with assertsChecked := true }
+    -- self layer first, then the super layers from the top down
+    for (li, layer) in ob.layers.zipIdx.map (fun p => (p.2, p.1)) do
+      for (c, m) in layer.asserts do
+        let env ← layerEnv o li
+        let cv ← rec (.eval c env false d)
+        match cv with
+        | .bool true => pure ()
+        | .bool false =>
+          match m with
+          | .none => throw (.rt "AssertFailed" "")
+          | .some me =>
+            let mv ← rec (.eval me env false d)
+            throw (.rt "AssertFailed" (← coerceToString rec mv d))
+        | v => throw (.rt "CondIsNotBool" (typeName v))
+    pure .null
+  | .deep v d => do
+    match v with
+    | .arr items =>
+      for t in items do
+        let need ← match ← getThunk t with
+          | .done (.arr _) => pure true
+          | .done (.obj _) => pure true
+          | .done _ => pure false
+          | _ => pure true
+        if need then
+          checkDepth cfg (d + 1)
+          let iv ← rec (.force t (d + 1))
+          let _ ← rec (.deep iv (d + 1))
+      pure v
+    | .obj o =>
+      let _ ← rec (.asserts o d)
+      for name in visibleFields (← getObj o) do
+        let some t ← fieldThunk o 0 name | throw (.internal "visible field without thunk")
+        let need ← match ← getThunk t with
+          | .done (.arr _) => pure true
+          | .done (.obj _) => pure true
+          | .done _ => pure false
+          | _ => pure true
+        if need then
+          checkDepth cfg (d + 1)
+          let fv ← rec (.force t (d + 1))
+          let _ ← rec (.deep fv (d + 1))
+      pure v
+    | v => pure v
+  | .manifest v d canon => do
+    match v with
+    | .null => pure (.str "null")
+    | .bool b => pure (.str (if b then "true" else "false"))
+    | .num f => if canon then pure (.str ("n" ++ bitsHex f)) else pure (.str (← numText f))
+    | .str s => if canon then pure (.str ("s" ++ strHex s)) else pure (.str (jsonEscape s))
+    | .func _ => throw (.rt "ManifestFunction" "")
+    | .arr items =>
+      if items.isEmpty then return .str (if canon then "[]" else "[ ]")
+      let mut parts : List String := []
+      for t in items do
+        checkDepth cfg (d + 1)
+        let iv ← rec (.force t (d + 1))
+        parts := parts ++ [← recStr rec (.manifest iv (d + 1) canon)]
+      pure (.str ("[" ++ (if canon then "," else ", ").intercalate parts ++ "]"))
+    | .obj o =>
+      let _ ← rec (.asserts o d)
+      let names := visibleFields (← getObj o)
+      if names.isEmpty then return .str (if canon then "{}" else "{ }")
+      let mut parts : List String := []
+      for name in names do
+        let some t ← fieldThunk o 0 name | throw (.internal "visible field without thunk")
+        checkDepth cfg (d + 1)
+        let fv ← rec (.force t (d + 1))
+        let s ← recStr rec (.manifest fv (d + 1) canon)
+        parts := parts ++ [if canon then strHex name ++ ":" ++ s else jsonEscape name ++ ": " ++ s]
+      pure (.str ("{" ++ (if canon then "," else ", ").intercalate parts ++ "}"))
+  | .equals a b d => do
+    match a, b with
+    | .null, .null => pure (.bool true)
+    | .bool x, .bool y => pure (.bool (x == y))
+    | .num x, .num y => pure (.bool (x == y))
+    | .str x, .str y => pure (.bool (x == y))
+    | .arr xs, .arr ys =>
+      if xs.length != ys.length then return .bool false
+      for (x, y) in xs.zip ys do
+        checkDepth cfg (d + 1)
+        let xv ← rec (.force x (d + 1))
+        let yv ← rec (.force y (d + 1))
+        match ← rec (.equals xv yv (d + 1)) with
+        | .bool true => pure ()
+        | _ => return .bool false
+      pure (.bool true)
+    | .obj x, .obj y =>
+      let xf := visibleFields (← getObj x)
+      let yf := visibleFields (← getObj y)
+      if xf != yf then return .bool false
+      let mut first := true
+      for name in xf do
+        checkDepth cfg (d + 1)
+        if first then
+          let _ ← rec (.asserts x (d + 1))
+          let _ ← rec (.asserts y (d + 1))
+          first := false
+        let some xt ← fieldThunk x 0 name | throw (.internal "visible field without thunk")
+        let some yt ← fieldThunk y 0 name | throw (.internal "visible field without thunk")
+        let xv ← rec (.force xt (d + 1))
+        let yv ← rec (.force yt (d + 1))
+        match ← rec (.equals xv yv (d + 1)) with
+        | .bool true => pure ()
+        | _ => return .bool false
+      pure (.bool true)
+    | .func _, .func _ => throw (.rt "CompareFunctions" "")
+    | _, _ => pure (.bool false)
+  | .compare a b d => do
+    -- result: num -1 / 0 / 1
+    let ord (c : Ordering) : Value :=
+      match c with | .lt => .num (-1.0) | .eq => .num 0.0 | .gt => .num 1.0
+    match a, b with
+    | .null, .null => throw (.rt "CompareNullInequality" "")
+    | .bool _, .bool _ => throw (.rt "CompareBooleanInequality" "")
+    | .num x, .num y =>
+      if x < y then pure (ord .lt) else if x == y then pure (ord .eq)
+      else if x > y then pure (ord .gt) else throw (.internal "partial_cmp of NaN")
+    | .str x, .str y => pure (ord (compare x y))
+    | .arr xs, .arr ys => compareLists cfg rec d xs ys
+    | .obj _, .obj _ => throw (.rt "CompareObjectInequality" "")
+    | .func _, .func _ => throw (.rt "CompareFunctions" "")
+    | l, r => throw (.rt "CompareDifferentTypesInequality" (s!"{typeName l}/{typeName r}"))
+  | .eval e env tail d => do
+    match e with
+    | .null => pure .null
+    | .true_ => pure (.bool true)
+    | .false_ => pure (.bool false)
+    | .num f => checkNum f; pure (.num f)
+    | .str s => pure (.str s)
+    | .paren e => rec (.eval e env false d)
+    | .self_ => do pure (.obj (← getObjRef env).obj)
+    | .dollar => do pure (.obj (← getObjRef env).top)
+    | .object ms => do
+      let isTop := (← getEnv env).obj.isNone
+      let mut layer : Layer := { isTop, locals := memberLocals ms, baseEnv := some env, env := none,
+                                 fields := [], asserts := memberAsserts ms }
+      for m in membersList ms do
+        match m with
+        | .fieldFix n plus vis ps ve _ =>
+          layer ← addField layer n plus vis (bindExpr ps ve) none
+        | .fieldDyn ne plus vis ps ve _ =>
+          match ← rec (.eval ne env false d) with
+          | .str n => layer ← addField layer n plus vis (bindExpr ps ve) none
+          | .null => pure ()
+          | v => throw (.rt "FieldNameIsNotString" (typeName v))
+        | _ => pure ()
+      let o ← allocObj { layers := [layer], assertsChecked := false }
+      pure (.obj o)
+    | .objectComp locals name plus body spec => do
+      let isTop := (← getEnv env).obj.isNone
+      let sets ← evalSpecs rec (specsList spec) env d
+      let mut layer : Layer := { isTop, locals := bindsList locals, baseEnv := none, env := none,
+                                 fields := [], asserts := [] }
+      for vars in sets do
+        let outer ← newEnv (some env) vars
+        match ← rec (.eval name outer false d) with
+        | .str n => layer ← addField layer n plus .default body (some outer)
+        | .null => pure ()
+        | v => throw (.rt "FieldNameIsNotString" (typeName v))
+      let o ← allocObj { layers := [layer], assertsChecked := true }
+      pure (.obj o)
+    | .array items => do
+      let mut ts : List TId := []
+      for it in exprsList items do
+        ts := ts ++ [← newThunk it env]
+      pure (.arr ts)
+    | .arrayComp body spec => do
+      let sets ← evalSpecs rec (specsList spec) env d
+      let mut ts : List TId := []
+      for vars in sets do
+        let ienv ← newEnv (some env) vars
+        ts := ts ++ [← newThunk body ienv]
+      pure (.arr ts)
+    | .field oe name => do
+      match ← rec (.eval oe env false d) with
+      | .obj o => wantField cfg rec o name d
+      | _ => throw (.rt "FieldOfNonObject" "")
+    | .index oe ie => do
+      let ov ← rec (.eval oe env false d)
+      let iv ← rec (.eval ie env false d)
+      match ov with
+      | .str s =>
+        let .num f := iv | throw (.rt "StringIndexIsNotNumber" (typeName iv))
+        let some i := toIndex f | throw (.rt "NumericIndexIsNotValid" "?")
+        match s.toList[i]? with
+        | some c => pure (.str (String.singleton c))
+        | none => throw (.rt "NumericIndexOutOfRange" s!"{i}/{s.length}")
+      | .arr items =>
+        let .num f := iv | throw (.rt "ArrayIndexIsNotNumber" (typeName iv))
+        let some i := toIndex f | throw (.rt "NumericIndexIsNotValid" "?")
+        match items[i]? with
+        | some t => wantThunk cfg rec t d
+        | none => throw (.rt "NumericIndexOutOfRange" s!"{i}/{items.length}")
+      | .obj o =>
+        let .str n := iv | throw (.rt "ObjectIndexIsNotString" (typeName iv))
+        wantField cfg rec o n d
+      | v => throw (.rt "InvalidIndexedType" (typeName v))
+    | .slice oe a b c => do
+      let ov ← rec (.eval oe env false d)
+      let ev (x : OptExpr) : M Value := match x with
+        | .none => pure .null
+        | .some e => rec (.eval e env false d)
+      let av ← ev a
+      let bv ← ev b
+      let cv ← ev c
+      let toF (v : Value) : M (Option Float) := match v with
+        | .null => pure none
+        | .num f => pure (some f)
+        | v => throw (.rt "SliceIndexOrStepIsNotNumber" (typeName v))
+      let af ← toF av
+      let bf ← toF bv
+      let cf ← toF cv
+      match ov with
+      | .str s =>
+        let cs := s.toList
+        let (st, en, sp) ← sliceRange cs.length af bf cf
+        pure (.str (String.ofList (stepBy ((cs.drop st).take (en - st)) sp)))
+      | .arr items =>
+        let (st, en, sp) ← sliceRange items.length af bf cf
+        pure (.arr (stepBy ((items.drop st).take (en - st)) sp))
+      | v => throw (.rt "InvalidSlicedType" (typeName v))
+    | .superField name => wantSuperField cfg rec env name d
+    | .superIndex ie => do
+      match ← rec (.eval ie env false d) with
+      | .str n => wantSuperField cfg rec env n d
+      | v => throw (.rt "ObjectIndexIsNotString" (typeName v))
+    | .inSuper le => do
+      match ← rec (.eval le env false d) with
+      | .str n =>
+        let r ← getObjRef env
+        pure (.bool ((findField (← getObj r.obj) (r.layer + 1) n).isSome))
+      | v => throw (.rt "InvalidBinaryOpTypes" s!"Rsj.Core.BinOp.in_/{typeName v}/Object")
+    | .call ce args ts => do
+      let cv ← rec (.eval ce env false d)
+      let .func f := cv | throw (.rt "CalleeIsNotFunction" (typeName cv))
+      let fn ← getFunc f
+      -- thunks are created first for the positional, then for the named arguments
+      let split := argsSplit args
+      let mut pos : List TId := []
+      for (n, ae) in split do
+        if n.isNone then pos := pos ++ [← newThunk ae env]
+      if pos.length > fn.params.length then
+        throw (.rt "TooManyCallArgs" (toString fn.params.length))
+      let mut named : List (String × TId) := []
+      let mut fast := pos.length == fn.params.length && split.all (fun p => p.1.isNone)
+      if !fast then
+        -- named thunks are created one by one while the names are checked
+        let npos := pos.length
+        let mut seen : List String := []
+        for (n, ae) in split do
+          match n with
+          | none => pure ()
+          | some n =>
+            match fn.params.findIdx? (fun p => p.1 == n) with
+            | none => throw (.rt "UnknownCallParam" n)
+            | some pi =>
+              if pi < npos || seen.contains n then throw (.rt "RepeatedCallParam" n)
+              seen := n :: seen
+              named := named ++ [(n, ← newThunk ae env)]
+      let argThunks ← bindArgs fn.params { pos, named } (some fn.env) (fun e ae => newThunk e ae)
+      if ts && tail then
+        for t in argThunks do
+          checkDepth cfg (d + 1)
+          let _ ← rec (.force t (d + 1))
+        let inner ← newEnv (some fn.env) ((fn.params.map Prod.fst).zip argThunks)
+        rec (.eval fn.body inner true d)
+      else
+        checkDepth cfg (d + 1)
+        let inner ← newEnv (some fn.env) ((fn.params.map Prod.fst).zip argThunks)
+        rec (.eval fn.body inner true (d + 1))
+    | .var n => do
+      let t ← getVar env n
+      wantThunk cfg rec t d
+    | .local_ bs body => do
+      let e' ← allocEnv { parent := some env, vars := [], obj := (← getEnv env).obj }
+      let mut vars : List (String × TId) := []
+      for (n, be) in bindsList bs do
+        vars := vars.filter (fun p => p.1 != n) ++ [(n, ← newThunk be e')]
+      setEnv e' { parent := some env, vars := vars, obj := (← getEnv env).obj }
+      rec (.eval body e' tail d)
+    | .if_ c t el => do
+      match ← rec (.eval c env false d) with
+      | .bool true => rec (.eval t env tail d)
+      | .bool false =>
+        match el with
+        | .some e => rec (.eval e env tail d)
+        | .none => pure .null
+      | v => throw (.rt "CondIsNotBool" (typeName v))
+    | .binary op a b => do
+      match op with
+      | .lt | .le | .gt | .ge =>
+        checkDepth cfg (d + 1)
+        let av ← rec (.eval a env false (d + 1))
+        let bv ← rec (.eval b env false (d + 1))
+        match ← rec (.compare av bv (d + 1)) with
+        | .num c =>
+          pure (.bool (match op with
+            | .lt => c < 0.0 | .le => c ≤ 0.0 | .gt => c > 0.0 | _ => c ≥ 0.0))
+        | _ => throw (.internal "compare did not return a number")
+      | .eq | .ne =>
+        checkDepth cfg (d + 1)
+        let av ← rec (.eval a env false (d + 1))
+        let bv ← rec (.eval b env false (d + 1))
+        match ← rec (.equals av bv (d + 1)) with
+        | .bool r => pure (.bool (if op == .eq then r else !r))
+        | _ => throw (.internal "equals did not return a bool")
+      | .land =>
+        match ← rec (.eval a env false d) with
+        | .bool false => pure (.bool false)
+        | av =>
+          let bv ← rec (.eval b env false d)
+          binaryOp cfg rec .land av bv d true
+      | .lor =>
+        match ← rec (.eval a env false d) with
+        | .bool true => pure (.bool true)
+        | av =>
+          let bv ← rec (.eval b env false d)
+          binaryOp cfg rec .lor av bv d true
+      | op =>
+        let av ← rec (.eval a env false d)
+        let bv ← rec (.eval b env false d)
+        binaryOp cfg rec op av bv d true
+    | .unary op a => do
+      let av ← rec (.eval a env false d)
+      match op, av with
+      | .minus, .num f => pure (.num (-f))
+      | .plus, .num f => pure (.num f)
+      | .bnot, .num f => do
+        let i ← safeInt f
+        pure (.num (intToFloat (-i - 1)))
+      | .lnot, .bool b => pure (.bool (!b))
+      | op, v => throw (.rt "InvalidUnaryOpType" s!"{reprStr op}/{typeName v}")
+    | .objExt oe ms => do
+      let av ← rec (.eval oe env false d)
+      let bv ← rec (.eval (.object ms) env false d)
+      binaryOp cfg rec .add av bv d true
+    | .func ps body => do
+      let f ← allocFunc { params := paramsList ps, body := body, env := env }
+      pure (.func f)
+    | .assert_ c m inner => do
+      match ← rec (.eval c env false d) with
+      | .bool true => rec (.eval inner env tail d)
+      | .bool false =>
+        match m with
+        | .none => throw (.rt "AssertFailed" "")
+        | .some me =>
+          let mv ← rec (.eval me env false d)
+          throw (.rt "AssertFailed" (← coerceToString rec mv d))
+      | v => throw (.rt "CondIsNotBool" (typeName v))
+    | .error_ me => do
+      let mv ← rec (.eval me env false d)
+      checkDepth cfg (d + 1)
+      throw (.rt "ExplicitError" (← coerceToString rec mv (d + 1)))
+    | .importLit _ | .importTextBlock _ | .importComputed _ _ =>
+      throw (.unsupported "import")
+    | .builtin b args => do
+      -- `std.<b>(args)`: argument thunks, a `Call` trace item, then the builtin forces what it needs
+      let mut ts : List TId := []
+      for ae in exprsList args do
+        ts := ts ++ [← newThunk ae env]
+      checkDepth cfg (d + 1)
+      let d1 := d + 1
+      match b, ts with
+      | .length, [t] => do
+        match ← rec (.force t d1) with
+        | .str s => pure (.num (Float.ofNat s.length))
+        | .arr items => pure (.num (Float.ofNat items.length))
+        | .obj o => do pure (.num (Float.ofNat (visibleFields (← getObj o)).length))
+        | .func f => do pure (.num (Float.ofNat (← getFunc f).params.length))
+        | v => throw (.rt "InvalidStdFuncArgType" s!"length/0/{typeName v}")
+      | .type_, [t] => do
+        pure (.str (typeStr (← rec (.force t d1))))
+      | .trace, [t0, t1] => do
+        let rest ← rec (.force t1 d1)
+        match ← rec (.force t0 d1) with
+        | .str msg =>
+          modify fun st => { st with traces := msg :: st.traces }
+          pure rest
+        | v => throw (.rt "InvalidStdFuncArgType" s!"trace/0/{typeName v}")
+      | .objectHasEx, [t0, t1, t2] => do
+        let ov ← rec (.force t0 d1)
+        let fv ← rec (.force t1 d1)
+        let hv ← rec (.force t2 d1)
+        let .obj o := ov | throw (.rt "InvalidStdFuncArgType" s!"objectHasEx/0/{typeName ov}")
+        let .str f := fv | throw (.rt "InvalidStdFuncArgType" s!"objectHasEx/1/{typeName fv}")
+        let .bool h := hv | throw (.rt "InvalidStdFuncArgType" s!"objectHasEx/2/{typeName hv}")
+        let ob ← getObj o
+        pure (.bool (if h then (findField ob 0 f).isSome else hasVisibleField ob f))
+      | .objectFieldsEx, [t0, t1] => do
+        let ov ← rec (.force t0 d1)
+        let hv ← rec (.force t1 d1)
+        let .obj o := ov | throw (.rt "InvalidStdFuncArgType" s!"objectFieldsEx/0/{typeName ov}")
+        let .bool h := hv | throw (.rt "InvalidStdFuncArgType" s!"objectFieldsEx/1/{typeName hv}")
+        let names := (fieldsOrder (← getObj o)).filterMap
+          (fun p => if h || p.2 != .hidden then some p.1 else none)
+        let mut out : List TId := []
+        for n in names do
+          out := out ++ [← allocThunk (.done (.str n))]
+        pure (.arr out)
+      | _, _ => throw (.internal "builtin arity")
+
+end
+
+/-- The evaluator with `fuel` levels of recursion. -/
+def run (cfg : Cfg) : Nat → Task → M Value
+  | 0, _ => bottom
+  | n + 1, t => step cfg (run cfg n) t
+
+/-- `Evaluator::eval` failing: thunks still in progress go back to pending. -/
+def restoreInProgress (st : St) : St :=
+  { st with thunks := st.thunks.map (fun s => match s with | .inProgress p => .pending p | s => s) }
+
+def showErr : Err → String
+  | .stackOverflow => "err eval StackOverflow -"
+  | .infiniteRecursion => "err eval InfiniteRecursion -"
+  | .internal m => "panic " ++ strHex m
+  | .unsupported m => "unsupported " ++ strHex m
+  | .rt k d => "err eval " ++ k ++ " " ++ strHex d
+
+/-- `load_source` + `eval_value` + manifestation of a closed program; `std` is
+    the only variable in scope (its thunk is never forced by the core model). -/
+def evalProgram (cfg : Cfg) (fuel : Nat) (e : Expr) : String × St :=
+  let prog : M String := do
+    let stdT ← allocThunk (.done .null)
+    let root ← allocEnv { parent := none, vars := [("std", stdT)], obj := none }
+    let t ← allocThunk (.pending (.expr e root))
+    let v ← run cfg fuel (.force t 0)
+    let _ ← run cfg fuel (.deep v 0)
+    match ← run cfg fuel (.manifest v 0 true) with
+    | .str s => pure s
+    | _ => throw (.internal "manifest did not return a string")
+  match (prog.run).run {} with
+  | none => ("gas", {})
+  | some (.ok s, st) => ("ok " ++ s, st)
+  | some (.error er, st) => (showErr er, restoreInProgress st)
+
+def showTraces (st : St) : String :=
+  " T" ++ ",".intercalate (st.traces.reverse.map strHex)
+
+/-- `core <maxStack> <fuel> <traces 0|1> <sexp tokens...>` -/
+def handle (args : List String) : Option String := do
+  match args with
+  | ms :: fuel :: tr :: rest =>
+    let e ← parseProgram rest
+    let (out, st) := evalProgram { maxStack := ← ms.toNat? } (← fuel.toNat?) e
+    pure (out ++ (if tr == "1" then showTraces st else ""))
+  | _ => none
 
 end Rsj.Eval
